@@ -97,12 +97,17 @@ func parseSemver(s string) semv {
 	return semv{n[0], n[1], n[2], true}
 }
 
-func versionGrid() []string {
+func versionGrid(thorough bool) []string {
 	var g []string
-	for ma := 0; ma <= 3; ma++ {
-		for mi := 0; mi <= 3; mi++ {
-			for _, pa := range []int{0, 7} {
-				for _, suf := range []string{"", "-rc.1", "+b5"} {
+	// numbers whose decimal order differs from their order as text (9 / 10 / 11, 99 / 100) are on both axes
+	nums, patches, sufs := []int{0, 1, 2, 3, 9, 10, 11}, []int{0, 7}, []string{"", "-rc.1", "+b5"}
+	if thorough {
+		nums, patches, sufs = []int{0, 1, 2, 3, 4, 5, 9, 10, 11, 99, 100}, []int{0, 7, 12}, []string{"", "-rc.1", "+b5", "-rc.1+b5", "-0", "-alpha.beta-1"}
+	}
+	for _, ma := range nums {
+		for _, mi := range nums {
+			for _, pa := range patches {
+				for _, suf := range sufs {
 					g = append(g, fmt.Sprintf("%d.%d.%d%s", ma, mi, pa, suf))
 				}
 			}
@@ -143,7 +148,7 @@ func init() {
 	Register(&Check{
 		ID:    "C18",
 		Level: "exploration",
-		Rule: "full grid of (build version B, declared version V) pairs: majors 0..3 x minors 0..3 x patches {0,7} x {release,-rc.1,+b5} on both axes, " +
+		Rule: "full grid of (build version B, declared version V) pairs: majors and minors in {0,1,2,3,9,10,11} x patches {0,7} x {release,-rc.1,+b5} on both axes (thorough: {0..5,9,10,11,99,100} x {0,7,12} x six suffix forms), " +
 			"plus non-semver builds, absent V, malformed V, and 8 real binaries linked with -X main.version (v-prefixed, with prerelease and build metadata); a case is non-trivial when B is a semantic version and V is present (the gate is actually evaluated); distinct = distinct (B,V) pair",
 		Assumptions: []string{
 			"in-process cmd.NewBuildCmd(B, info) is what main.go calls after stripping a leading v from a valid v-prefixed version; the stripping itself is covered by the 4 linked binaries",
@@ -162,7 +167,7 @@ func init() {
 			return nil
 		},
 		Run: func(w *W) {
-			grid := versionGrid()
+			grid := versionGrid(!w.Env.Quick())
 			eval := func(c *C, b string, cfg string, expect string, key string) {
 				br := w.BuildWithVersion(b, []File{{"c.yaml", cfg}})
 				obs := "accept"
@@ -252,6 +257,7 @@ func init() {
 							w.Case("several-files/B="+b+"/"+v1+","+v2, func(c *C) {
 								none := (&Cfg{Params: []Param{{"b", 2}}}).YAML()
 								f1, f2 := c18cfg(&v1, nil), (&Cfg{Version: &v2, Params: []Param{{"c", 3}}}).YAML()
+								only1, only2 := (&Cfg{Version: &v1}).YAML(), (&Cfg{Version: &v2}).YAML() // files that declare nothing but the version
 								for _, form := range []struct {
 									id    string
 									files []File
@@ -261,6 +267,11 @@ func init() {
 									{"v1,none", []File{{"a.yaml", f1}, {"b.yaml", none}}, v1},
 									{"none,v2", []File{{"a.yaml", none}, {"b.yaml", f2}}, v2},
 									{"v1,none,v2", []File{{"a.yaml", f1}, {"b.yaml", none}, {"c.yaml", f2}}, v2},
+									{"only-v1", []File{{"a.yaml", only1}}, v1},
+									{"only-v1,none", []File{{"a.yaml", only1}, {"b.yaml", none}}, v1},
+									{"none,only-v2", []File{{"a.yaml", none}, {"b.yaml", only2}}, v2},
+									{"v1,only-v2", []File{{"a.yaml", f1}, {"b.yaml", only2}}, v2},
+									{"only-v1,only-v2", []File{{"a.yaml", only1}, {"b.yaml", only2}}, v2},
 								} {
 									br := w.BuildWithVersion(b, form.files)
 									exp := c18expect(b, form.last)
